@@ -437,11 +437,18 @@ def denote(shape, rec, mults=None):
     return nodes, edges
 
 
+AVOID_DOUBLE_CLOSE = False
+
+
 def no_double_close(shape):
     """equivalent spelling in which no branch closes directly after a nested
     branch ('))'): the last nested branch of a branch's last element is written
     as chain continuation instead.  Hole ids are unchanged."""
     s = copy.deepcopy(shape)
+    if not AVOID_DOUBLE_CLOSE:
+        # the reader defect that made this necessary is repaired in /repo (see known_findings.json, fixed:);
+        # the generators now keep the '))' spellings
+        return s
 
     def fix(chain, in_branch):
         for el in chain:
